@@ -25,15 +25,15 @@ Proof. exact number_inf_roundtrip. Qed.
 Print Assumptions C16_number_inf_roundtrip.
 
 (* unknown values of unknown type: nothing is invented *)
-Theorem C16_unknown_dyn : forall norm refs, unknown_of_mp norm refs TDyn = Ok (v_unknown TDyn).
+Theorem C16_unknown_dyn : forall norm n items, unknown_of_mp norm n items TDyn = Ok (v_unknown TDyn).
 Proof. exact unknown_dyn_ignores_refs. Qed.
 Print Assumptions C16_unknown_dyn.
 
-Theorem C16_unknown_no_refs : forall norm t, unknown_of_mp norm [] t = Ok (v_unknown t).
+Theorem C16_unknown_no_refs : forall norm t, unknown_of_mp norm 0 [] t = Ok (v_unknown t).
 Proof. exact unknown_empty_refs. Qed.
 Print Assumptions C16_unknown_no_refs.
 
 (* replaying decoded refinements never panics (also C17) *)
-Theorem C16_unknown_replay_no_panic : forall norm refs t, unknown_of_mp norm refs t <> Panic.
+Theorem C16_unknown_replay_no_panic : forall norm n items t, unknown_of_mp norm n items t <> Panic.
 Proof. exact unknown_of_mp_no_panic. Qed.
 Print Assumptions C16_unknown_replay_no_panic.
